@@ -1,14 +1,14 @@
 SPECIFICATION Spec
 CONSTANTS
-  Cfgs <- MC_CfgsThorough
-  Lens <- MC_LensT
-  Ds <- MC_DsT
-  MaxEx = 5
-  MaxFaults = 3
+  Cfgs <- MC_CfgsFixed
+  Lens <- MC_Lens
+  Ds <- MC_Ds
+  MaxEx = 4
+  MaxFaults = 2
   MaxStepFaults = 2
   Vs <- MC_VsFixed
   WithRelease = TRUE
-  MaxSess = 1
+  MaxSess = 2
 INVARIANT ExactlyOnce
 INVARIANT Intact
 INVARIANT OnlyCommErr
